@@ -113,7 +113,7 @@ class C03(Check):
             'separators x 9 contexts; inputs: all strings of length<=4 (quick) / 5 (thorough) over {a,b,",",Z}. '
             'Non-trivial iff the reference trace shows the repetition stopped at its upper bound, missed its '
             'lower bound after consuming >=1 element, or met a dangling separator; distinct by (rule text, input).')
-    assumptions = ['reference semantics of DESIGN.md Appendix A', 'symbolic bounds keep m <= n (F22 out of domain)']
+    assumptions = ['reference semantics of DESIGN.md Appendix A']
     budget_quick = 150
     budget_thorough = 1500
     exhaustive = True
@@ -132,6 +132,20 @@ class C03(Check):
                 for tag, extra, x in variants:
                     xnull = (lo in (0, None))
                     for ctag, c in contexts(x, xnull):
+                        items.append(('rep/%s/%s' % (tag, ctag), extra, c))
+        # bounds computed at parse time may be contradictory (m > n): the repetition must fail
+        # (literal m > n is rejected by the constructor; this was F22 until it was fixed)
+        for e in ELEMS[:3]:
+            for lo, hi in ((1, 0), (2, 1), (3, 2), (2, 0), (3, 1)):
+                variants = [('let-contradictory', [], ('let', 'm', ('py', str(lo)), ('let', 'n', ('py', str(hi)),
+                                                                                     ('rep', e, 'm', 'n')))),
+                            ('let-upper-only', [], ('let', 'n', ('py', str(hi)), ('rep', e, lo, 'n')))]
+                idx += 1
+                v = template_variant(idx, e, lo, hi)
+                if v:
+                    variants.append(v)
+                for tag, extra, x in variants:
+                    for ctag, c in contexts(x, False):
                         items.append(('rep/%s/%s' % (tag, ctag), extra, c))
         for e in ELEMS[:3] + [ELEMS[4]]:
             for s in SEPS:
